@@ -76,10 +76,10 @@ Print Assumptions bytes_after_message_left_unconsumed.
 (* ROUND TRIP  parse (serialize m ++ rest) = (m, rest)                  *)
 (* ------------------------------------------------------------------ *)
 (* a header line written with ANY SP / HTAB padding before and after the colon -- in particular
-   none ("Host:example") -- sets exactly name := value in the (lower-case keyed) header map *)
+   none ("Host:example") -- and ANY letter case in the name sets exactly lower(name) := value in the header map *)
 Theorem header_line_with_or_without_space : forall h hs, hline_ok h = true ->
   header_line (hl_name h ++ hl_pre h ++ [58] ++ hl_post h ++ hl_value h) hs
-  = Some (aset (hl_name h) (hl_value h) hs).
+  = Some (aset (lower (hl_name h)) (hl_value h) hs).
 Proof. exact header_line_render. Qed.
 Print Assumptions header_line_with_or_without_space.
 
@@ -97,25 +97,30 @@ Theorem no_framing_header_announces_no_body : forall h,
 Proof. exact request_length_nobody. Qed.
 Print Assumptions no_framing_header_announces_no_body.
 
-(* REQUEST with no body / a Content-Length body.  The parser ends in SDone holding exactly the
+(* In all round trips the start line, every header line, the blank line and every trailer line
+   end in CRLF or bare LF, chosen independently per line (e0, hl_end, e1, e2); header names have
+   any letter case.  (Chunk size lines and chunk terminators are CRLF: parseChunk accepts only that.)
+
+   REQUEST with no body / a Content-Length body.  The parser ends in SDone holding exactly the
    message's method, url, version, header map (lodict of the header lines) and body; [rest]
    (the next message) is left unconsumed. *)
-Theorem request_roundtrip_fixed : forall cf method url v11 lines body rest,
+Theorem request_roundtrip_fixed : forall cf method url v11 e0 lines e1 body rest,
   0 <= maxline cf ->
   tok_ok method = true -> existsb (beq method) METHODS = true -> tok_ok url = true -> url_ok cf url = true ->
   len (request_line method url v11) <= maxline cf ->
   forallb hline_ok lines = true -> forallb (line_len_ok cf) lines = true ->
   Z.of_nat (length lines) <= maxhdrs cf ->
   is_chunked (hdrs_of lines) = false -> request_length (hdrs_of lines) = Some (len body) ->
-  http_feed cf (init_pst false false, []) (head_bytes (request_line method url v11) lines ++ body ++ rest)
+  http_feed cf (init_pst false false, []) (head_bytes (request_line method url v11) e0 lines e1 ++ body ++ rest)
   = (with_body (req_headed method url v11 lines) body [], rest).
 Proof. exact request_fixed_roundtrip. Qed.
 Print Assumptions request_roundtrip_fixed.
 
-(* REQUEST, chunked: chunk sizes are any lower-case hex numeral (leading zeros allowed), every
+(* REQUEST, chunked: chunk sizes are any hex numeral, digits a-f / A-F in either case per digit (codes 10-15 / 16-21 of
+   Model.dchar), leading zeros allowed, every
    chunk and the last chunk may carry extensions ;name / ;name=value, then trailer lines.
    .parms = the chunks' extensions merged in order (odict update), .trails = lodict of the trailers *)
-Theorem request_roundtrip_chunked : forall cf method url v11 lines chunks zs les trailers rest,
+Theorem request_roundtrip_chunked : forall cf method url v11 e0 lines e1 chunks zs les trailers e2 rest,
   0 <= maxline cf ->
   tok_ok method = true -> existsb (beq method) METHODS = true -> tok_ok url = true -> url_ok cf url = true ->
   len (request_line method url v11) <= maxline cf ->
@@ -126,14 +131,14 @@ Theorem request_roundtrip_chunked : forall cf method url v11 lines chunks zs les
   forallb hline_ok trailers = true -> forallb (line_len_ok cf) trailers = true ->
   Z.of_nat (length trailers) <= maxhdrs cf ->
   http_feed cf (init_pst false false, [])
-            (head_bytes (request_line method url v11) lines ++ chunked_bytes chunks zs les trailers ++ rest)
+            (head_bytes (request_line method url v11) e0 lines e1 ++ chunked_bytes chunks zs les trailers e2 ++ rest)
   = (with_chunked (req_headed method url v11 lines) (concat (map ch_data chunks)) (parms_of chunks les [])
                   (hdrs_of trailers), rest).
 Proof. exact request_chunked_roundtrip. Qed.
 Print Assumptions request_roundtrip_chunked.
 
 (* RESPONSE with announced length (Content-Length; 204 / 304 / 1xx / reply to HEAD: 0) *)
-Theorem response_roundtrip_fixed : forall cf hr v11 ds reason lines body rest,
+Theorem response_roundtrip_fixed : forall cf hr v11 ds reason e0 lines e1 body rest,
   0 <= maxline cf ->
   status_ok ds = true -> forallb tok_ok reason = true ->
   len (status_line v11 ds reason) <= maxline cf ->
@@ -141,13 +146,13 @@ Theorem response_roundtrip_fixed : forall cf hr v11 ds reason lines body rest,
   Z.of_nat (length lines) <= maxhdrs cf ->
   is_chunked (hdrs_of lines) = false ->
   response_length hr (dval 10 ds 0) (hdrs_of lines) = Some (len body) ->
-  http_feed cf (init_pst true hr, []) (head_bytes (status_line v11 ds reason) lines ++ body ++ rest)
+  http_feed cf (init_pst true hr, []) (head_bytes (status_line v11 ds reason) e0 lines e1 ++ body ++ rest)
   = (with_body (resp_headed hr v11 (dval 10 ds 0) reason lines) body [], rest).
 Proof. exact response_fixed_roundtrip. Qed.
 Print Assumptions response_roundtrip_fixed.
 
 (* RESPONSE delimited by the close of the connection *)
-Theorem response_roundtrip_close_delimited : forall cf hr v11 ds reason lines body,
+Theorem response_roundtrip_close_delimited : forall cf hr v11 ds reason e0 lines e1 body,
   0 <= maxline cf ->
   status_ok ds = true -> forallb tok_ok reason = true ->
   len (status_line v11 ds reason) <= maxline cf ->
@@ -155,12 +160,12 @@ Theorem response_roundtrip_close_delimited : forall cf hr v11 ds reason lines bo
   Z.of_nat (length lines) <= maxhdrs cf ->
   is_chunked (hdrs_of lines) = false ->
   response_length hr (dval 10 ds 0) (hdrs_of lines) = None ->
-  http_close cf (http_feed cf (init_pst true hr, []) (head_bytes (status_line v11 ds reason) lines ++ body))
+  http_close cf (http_feed cf (init_pst true hr, []) (head_bytes (status_line v11 ds reason) e0 lines e1 ++ body))
   = (with_body (resp_headed hr v11 (dval 10 ds 0) reason lines) body [], []).
 Proof. exact response_close_roundtrip. Qed.
 Print Assumptions response_roundtrip_close_delimited.
 
-Theorem response_roundtrip_chunked : forall cf hr v11 ds reason lines chunks zs les trailers rest,
+Theorem response_roundtrip_chunked : forall cf hr v11 ds reason e0 lines e1 chunks zs les trailers e2 rest,
   0 <= maxline cf ->
   status_ok ds = true -> forallb tok_ok reason = true ->
   len (status_line v11 ds reason) <= maxline cf ->
@@ -171,7 +176,7 @@ Theorem response_roundtrip_chunked : forall cf hr v11 ds reason lines chunks zs 
   forallb hline_ok trailers = true -> forallb (line_len_ok cf) trailers = true ->
   Z.of_nat (length trailers) <= maxhdrs cf ->
   http_feed cf (init_pst true hr, [])
-            (head_bytes (status_line v11 ds reason) lines ++ chunked_bytes chunks zs les trailers ++ rest)
+            (head_bytes (status_line v11 ds reason) e0 lines e1 ++ chunked_bytes chunks zs les trailers e2 ++ rest)
   = (with_chunked (resp_headed hr v11 (dval 10 ds 0) reason lines) (concat (map ch_data chunks))
                   (parms_of chunks les []) (hdrs_of trailers), rest).
 Proof. exact response_chunked_roundtrip. Qed.
@@ -186,33 +191,54 @@ Print Assumptions roundtrip_under_any_split.
 
 (* non-vacuity: the hypotheses are satisfiable and the states are what one expects *)
 Definition cfx := mkcfg 65536 100 [].
-Definition hl (n pre post v : string) : hline :=
-  {| hl_name := bz n; hl_pre := bz pre; hl_post := bz post; hl_value := bz v |}.
+Definition hl (n pre post v : string) (e : leol) : hline :=
+  {| hl_name := bz n; hl_pre := bz pre; hl_post := bz post; hl_value := bz v; hl_end := e |}.
 
 Example c29_request_fixed_instance :
-  let lines := [hl "host" "" "" "example.org"; hl "content-length" " " "  " "3"] in
+  let lines := [hl "Host" "" "" "example.org" LLf; hl "CONTENT-length" " " "  " "3" LCrLf] in
   (forallb hline_ok lines && negb (is_chunked (hdrs_of lines)))%bool = true /\
   request_length (hdrs_of lines) = Some 3 /\
+  head_bytes (request_line (bz "POST") (bz "/a?b") true) LLf lines LLf =
+    bz "POST /a?b HTTP/1.1" ++ [10] ++ bz "Host:example.org" ++ [10] ++ bz "CONTENT-length :  3" ++ [13; 10; 10] /\
   let k := http_feed_all cfx (init_pst false false, [])
-             [bz "PO"; bz "ST /a?b HTTP/1.1" ++ [13]; [10] ++ bz "host:example.org" ++ [13; 10] ++
-              bz "content-length :  3" ++ [13; 10; 13]; [10] ++ bz "abcGET /next"] in
+             [bz "PO"; bz "ST /a?b HTTP/1.1" ++ [10] ++ bz "Host:example.org"; [10] ++
+              bz "CONTENT-length :  3" ++ [13]; [10; 10] ++ bz "abcGET /next"] in
   k = (with_body (req_headed (bz "POST") (bz "/a?b") true lines) (bz "abc") [], bz "GET /next")
   /\ p_headers (fst k) = [(bz "host", bz "example.org"); (bz "content-length", bz "3")]
-  /\ p_body (fst k) = bz "abc" /\ p_stage (fst k) = SDone.
+  /\ p_body (fst k) = bz "abc" /\ p_stage (fst k) = SDone /\ persisted (fst k) = true.
 Proof. vm_compute. repeat split; reflexivity. Qed.
 
 Example c29_response_chunked_instance :
-  let lines := [hl "transfer-encoding" "" " " "chunked"] in
+  let lines := [hl "Transfer-Encoding" "" " " "chunked" LLf] in
   let chunks : list chunk := [([0; 3], [(bz "a", Some (bz "1")); (bz "b", None)], bz "abc");
-                              ([10], [(bz "a", Some (bz "2"))], bz "0123456789")] in
+                              ([16], [(bz "a", Some (bz "2"))], bz "0123456789")] in
   let les := [(bz "last", None)] in
-  let trailers := [hl "x-sum" "" "" "9"] in
+  let trailers := [hl "X-Sum" "" "" "9" LLf] in
   (forallb (chunk_ok cfx) chunks && zeros_ok cfx [0; 0] les && is_chunked (hdrs_of lines) && status_ok [2; 0; 0])%bool = true /\
-  chunked_bytes chunks [0; 0] les trailers =
-    bz "03;a=1;b" ++ [13; 10] ++ bz "abc" ++ [13; 10] ++ bz "a;a=2" ++ [13; 10] ++ bz "0123456789" ++ [13; 10] ++
-    bz "00;last" ++ [13; 10] ++ bz "x-sum:9" ++ [13; 10; 13; 10] /\
+  chunked_bytes chunks [0; 0] les trailers LCrLf =
+    bz "03;a=1;b" ++ [13; 10] ++ bz "abc" ++ [13; 10] ++ bz "A;a=2" ++ [13; 10] ++ bz "0123456789" ++ [13; 10] ++
+    bz "00;last" ++ [13; 10] ++ bz "X-Sum:9" ++ [10; 13; 10] /\
   http_feed cfx (init_pst true false, [])
-    (head_bytes (status_line true [2; 0; 0] [bz "OK"]) lines ++ chunked_bytes chunks [0; 0] les trailers ++ bz "HTTP/1.1 ")
+    (head_bytes (status_line true [2; 0; 0] [bz "OK"]) LCrLf lines LLf ++ chunked_bytes chunks [0; 0] les trailers LCrLf ++ bz "HTTP/1.1 ")
   = (with_chunked (resp_headed false true 200 [bz "OK"] lines) (bz "abc0123456789")
                   [(bz "a", Some (bz "2")); (bz "b", None); (bz "last", None)] [(bz "x-sum", bz "9")], bz "HTTP/1.1 ").
 Proof. vm_compute. repeat split; reflexivity. Qed.
+
+(* ------------------------------------------------------------------ *)
+(* keep-alive flag (.persisted) as a function of the parsed head        *)
+(* ------------------------------------------------------------------ *)
+Theorem http11_persists_by_default : forall s, p_version s = 1 ->
+  aget (bz "connection") (p_headers s) = None ->
+  (p_chunked s = true \/ exists n, p_length s = Some n) -> persisted11 s = true.
+Proof. exact persisted_http11_default. Qed.
+Print Assumptions http11_persists_by_default.
+
+Theorem connection_close_never_persists : forall s v, aget (bz "connection") (p_headers s) = Some v ->
+  v <> [] -> contains (bz "close") (lower v) = true -> persisted11 s = false.
+Proof. exact persisted_close. Qed.
+Print Assumptions connection_close_never_persists.
+
+Theorem http10_request_persists_iff_keep_alive : forall s, p_version s = 0 ->
+  req_persisted s = hdr_has (bz "connection") (bz "keep-alive") (p_headers s).
+Proof. exact req_persisted_http10. Qed.
+Print Assumptions http10_request_persists_iff_keep_alive.
